@@ -1049,7 +1049,7 @@ def run_shard(spec):
             for name in IDENTITIES:
                 case = gen_identity_case(rng, name)
                 identity_case(ctx, env, case)
-                if i == 0 and len(ctx.samples) < 4:
+                if i == 0 and name == ("machzehnder", "squeezing2", "bs5050", "fourier")[int(spec["shard"]) % 4]:
                     ctx.samples.append({"identity": name, "lhs": case["lhs"], "rhs": case["rhs"], "modes": case["modes"], "d": case["d"],
                                         "hbar": case["hbar"], "max_identity_dev_over_tol_so_far": ctx.c["max_identity_dev_over_tol"]})
         for i in range(int(spec["doc_points"])):
